@@ -4,6 +4,8 @@
 import TradingVerif.Lemmas.EnvStep
 import TradingVerif.Props.C08
 import TradingVerif.Props.C03
+import Mathlib.Algebra.Order.Field.Rat
+import Mathlib.Tactic.NormNum
 set_option linter.unusedSectionVars false
 set_option linter.unusedVariables false
 namespace TV
@@ -139,5 +141,45 @@ theorem in_space_action_executed (pw : K → K → K) (cfg : EnvCfg K) (s1 : Env
           hfrac hmar rfl hw (hnd.sublist hsub) hmult
         exact ⟨nlvPre, h⟩
 
+end
+
+/-! ### the premises are satisfiable: a concrete step at `ℚ` -/
+section NonVacuity
+local instance : HasTrunc ℚ := ⟨fun q => ((q.num.tdiv q.den : Int) : ℚ)⟩
+
+private def cfgQ17 : EnvCfg ℚ :=
+  { world := { spec := fun _ => { mult := 1, cashReq := 1, mr := 0 }, fixed := 0, prop := 0, markup := 0,
+               rateKey := "RATE", eps := 0 }
+    deposit := 100
+    tx := { timesteps := [0, 10, 20]
+            events := [⟨0, .market (.quote "A" 0 (some 10) (some 10))⟩, ⟨10, .market (.quote "A" 10 (some 11) (some 11))⟩,
+                       ⟨20, .market (.quote "A" 20 (some 12) (some 12))⟩] }
+    space := { keys := ["A"], kind := .box 0 1, margin := 0 }
+    reward := .pnl }
+
+private def s1Q : EnvState ℚ := (stepPre (envReset cfgQ17 0 20 0 none) (.vec [some (1/2 : ℚ)])).1
+
+private theorem s1Q_inv : Inv cfgQ17.world 100 s1Q.broker := by
+  have h : s1Q.broker = { Broker.init (100 : ℚ) with ex := s1Q.broker.ex } := rfl
+  rw [h]
+  exact inv_ex cfgQ17.world 100 _ _ (inv_init cfgQ17.world 100)
+
+/-- `in_space_action_executed` applies: the half-weight action leaves a position worth half the pre-trade NLV -/
+example : ∃ nlvPre : ℚ,
+    (stepExec (fun x _ => x) cfgQ17 s1Q (.vec [some (1/2 : ℚ)])).1.broker.pos "A" * 1 * 10 = (1/2) * nlvPre := by
+  obtain ⟨nlvPre, h⟩ := in_space_action_executed (fun x _ => x) cfgQ17 s1Q (.vec [some (1/2 : ℚ)]) 100 s1Q_inv ["A"]
+    (by decide +kernel) (by decide) (by decide +kernel) rfl rfl rfl (fun _ => by show (1 : ℚ) ≠ 0; norm_num)
+    (by decide +kernel) (by decide +kernel)
+  obtain ⟨p, hp, hv⟩ := (h "A" rfl).1 (1/2) (by decide +kernel)
+  have hp10 : p = 10 := by
+    have : (s1Q.broker.ex.books "A").acq (sgn (1/2 : ℚ)) = some 10 := by decide +kernel
+    rw [this] at hp; cases hp; rfl
+  subst hp10
+  exact ⟨nlvPre, hv (by norm_num)⟩
+
+end NonVacuity
+
+section
+variable {K : Type}
 end
 end TV
